@@ -1,7 +1,8 @@
 (** C08 -- an adapter index changes only speed, never what is found.
     Property theorems only.  Model: Model/Index.v. *)
 From Coq Require Import ZArith List Bool.
-From CV Require Import Generated.Tables Model.Base Model.Align Model.Adapters Model.Index Proofs.IndexProofs Proofs.IndexLoop Proofs.AlignDist Proofs.IndexDist.
+From CV Require Import Generated.Tables Model.Base Model.Align Model.Adapters Model.Index Proofs.IndexProofs Proofs.IndexLoop Proofs.AlignDist Proofs.IndexDist Proofs.IndexAgree.
+From CV Require Import Model.Pipeline.
 Import ListNotations.
 Open Scope Z_scope.
 
@@ -91,3 +92,22 @@ Example C08_nonvacuous :
 Proof.
   split; [repeat constructor; vm_compute; congruence|]. split; [vm_compute; repeat constructor; congruence | vm_compute; reflexivity].
 Qed.
+
+(** the last clause, anchored 5' adapters: equal length L, indels disabled, as the parser builds them for the index
+    ([prefix_iad]: no wildcards, minimum overlap = L, k = the threshold for L).  For every read of length >= L whose
+    first L characters are A/C/G/T (N-free) and are strictly closer (Hamming) to adapter r0, within r0's tolerance,
+    than to every other adapter that is within its own tolerance: the index reports adapter r0 with the first L
+    characters removed and the Hamming distance as error count, and so does the one-by-one search -- the best of the
+    individual comparers by score, then errors, then the order given (best_match, C09_best). *)
+Theorem C08_agrees_with_one_by_one : forall L ads s r0 a0,
+  1 <= L -> Forall (prefix_iad L) ads -> L <= zlen s ->
+  let affix := make_affix true (map (tr upper_table) s) L in
+  Forall (fun c => is_acgt c = true) affix ->
+  nth_error ads r0 = Some a0 ->
+  let h0 := hamming (a_seq (ia_ad a0)) affix in
+  h0 <= ia_k a0 ->
+  (forall j b, j <> r0 -> nth_error ads j = Some b -> hamming (a_seq (ia_ad b)) affix <= ia_k b -> h0 < hamming (a_seq (ia_ad b)) affix) ->
+  index_match true ads s = Some (r0, 0, L, h0, L - h0) /\
+  best_match (map to_p ads) s = Some (MSingle r0 (comparer_result L (zlen s) h0)).
+Proof. exact index_agrees_with_one_by_one. Qed.
+Print Assumptions C08_agrees_with_one_by_one.
